@@ -667,6 +667,11 @@ class SArr(np.ndarray):
     def tolist(self):
         return np.ndarray.tolist(self)
 
+    def tofile(self, fid, sep="", format="%s"):
+        from vf.stubs import fsmodel
+
+        return fsmodel.tofile(self, fid, sep=sep, format=format)
+
 
 def sarr(x):
     a = np.asarray(x, dtype=object) if not isinstance(x, np.ndarray) else x
